@@ -704,6 +704,94 @@ def _check_tables(run):
             run.fail(f"table:triangular:{o}:moment", "the rule does not integrate linear functions exactly", "valid quadrature table", inputs)
 
 
+def _check_small_faces(run, rng, tier, distinct):
+    """faces far below the sizes of the generated batches (0.002 .. 1 degree across), anywhere on the sphere: non-negative, the
+    default rule and gaussian order 4 within a relative 1e-5 of the exact excess (looser than the property's 1e-6 because the
+    oracle itself loses digits on such faces; a vanishing or wildly wrong area is what this looks for), spherical == Cartesian
+    input, and the pieces of a fan subdivision add up"""
+    faces, P_all = [], []
+    places = [(0.0, 0.0), (37.0, 45.0), (179.9995, -20.0), (-120.0, -60.0), (10.0, 89.9), (200.0, -89.95), (0.0004, 12.0)]
+    n_per = 4 if tier == "quick" else 30
+    for (clon, clat) in places:
+        c = _vec(clon, clat)
+        e1 = np.cross([0.0, 0.0, 1.0], c)
+        e1 = e1 / np.linalg.norm(e1)
+        e2 = np.cross(c, e1)
+        for _ in range(n_per):
+            n = int(rng.integers(3, 9))
+            size = np.deg2rad(10 ** rng.uniform(math.log10(0.002), 0.0)) / 2.0
+            ang = (np.arange(n) + rng.uniform(-0.3, 0.3, n)) * (2 * np.pi / n) + rng.uniform(0, 2 * np.pi)
+            r = size * rng.uniform(0.8, 1.0, n)
+            Q = c[None, :] + (r * np.cos(ang))[:, None] * e1[None, :] + (r * np.sin(ang))[:, None] * e2[None, :]
+            Q = Q / np.linalg.norm(Q, axis=1, keepdims=True)
+            if not _convex_ccw(Q, eps=0.0):
+                continue
+            lon, lat = _lonlat(Q)
+            faces.append({"lon": lon, "lat": lat, "n": n, "place": f"small@{clon:g},{clat:g}"})
+            P_all.append(_vec(lon, lat))
+    if not faces:
+        return
+
+    def excess(a, b, c):
+        # triple product through differences (no cancellation for nearly coincident corners)
+        return 2.0 * math.atan2(float(a @ np.cross(b - a, c - a)), 1.0 + float(a @ b) + float(b @ c) + float(c @ a))
+    ex = np.array([abs(sum(excess(p[0], p[t], p[t + 1]) for t in range(1, len(p) - 1))) for p in P_all])
+    for f in faces:
+        distinct.add((tuple(np.round(f["lon"], 12)), tuple(np.round(f["lat"], 12))))
+    lon, lat, rows = _assemble(faces)
+    base_in = {"batch": "small_faces_0.002-1deg", "n_faces": len(faces), "construction": "isolated small convex faces in one grid (from_topology)"}
+    tol = 1e-5
+    for site, args in (("default", ()), ("gaussian:4", ("gaussian", 4))):
+        a = _areas(run, _grid(lon, lat, rows), site, base_in, *args)
+        if a is None:
+            continue
+        run.cases += len(faces)
+        if np.any(a < 0) or not np.all(np.isfinite(a)):
+            i = int(np.argmin(np.where(np.isfinite(a), a, -np.inf)))
+            run.fail(f"negative_or_nan_area:small_faces:{site}", "a small face's area is negative or not finite", "the area is never negative",
+                     dict(base_in, face=_face_desc(faces[i])), observed=float(a[i]))
+        rel = _rel(a, ex)
+        if np.any(rel > tol):
+            i = int(np.argmax(rel))
+            run.fail(f"accuracy:small_faces:{site}", f"area of a face {float(_diam_deg(P_all[i])):.4g} degrees across off by relative {float(rel[i]):.3g}",
+                     "with the default rule within a relative 1e-6 for convex faces up to 10 degrees across",
+                     dict(base_in, face=_face_desc(faces[i])), observed=float(a[i]), expected=float(ex[i]))
+    # Cartesian corner coordinates
+    try:
+        gx = _grid(lon, lat, rows)
+        ac = np.asarray(gx.compute_face_areas(latlon=False)[0], float)
+        run.cases += len(faces)
+        rel = _rel(ac, ex)
+        if np.any(rel > tol):
+            i = int(np.argmax(rel))
+            run.fail("accuracy:small_faces:cartesian_input", f"area from Cartesian corners of a small face off by relative {float(rel[i]):.3g}",
+                     "the value does not depend on whether spherical or Cartesian corner coordinates are used",
+                     dict(base_in, face=_face_desc(faces[i])), observed=float(ac[i]), expected=float(ex[i]))
+    except Exception as e:  # noqa: BLE001
+        run.fail(f"raises:{type(e).__name__}:small_faces:cartesian_input", f"compute_face_areas(latlon=False) raises {type(e).__name__}: {e}"[:200],
+                 "the value does not depend on whether spherical or Cartesian corner coordinates are used", base_in)
+    # fan subdivision of every face into its triangles: the pieces add up
+    tri_faces, owner = [], []
+    for k, f in enumerate(faces):
+        for t in range(1, f["n"] - 1):
+            tri_faces.append({"lon": np.array([f["lon"][0], f["lon"][t], f["lon"][t + 1]]), "lat": np.array([f["lat"][0], f["lat"][t], f["lat"][t + 1]]),
+                              "n": 3, "place": f["place"]})
+            owner.append(k)
+    tl, tt, tr = _assemble(tri_faces)
+    at = _areas(run, _grid(tl, tt, tr), "default", dict(base_in, construction="fan triangles of the small faces"))
+    a0 = _areas(run, _grid(lon, lat, rows), "default", base_in)
+    if at is not None and a0 is not None:
+        sums = np.zeros(len(faces))
+        np.add.at(sums, np.array(owner), at)
+        run.cases += len(faces)
+        rel = _rel(sums, a0)
+        if np.any(rel > 1e-5):
+            i = int(np.argmax(rel))
+            run.fail("additive:small_faces:fan_subdivision", "the areas of the fan triangles of a small face do not add up to the face's area",
+                     "areas of a face and of the pieces of any subdivision of it add up", dict(base_in, face=_face_desc(faces[i])),
+                     observed=float(sums[i]), expected=float(a0[i]))
+
+
 def areas(tier, seed):
     rng = np.random.default_rng(seed * 104729 + 5)
     run = _Run()
@@ -719,11 +807,12 @@ def areas(tier, seed):
                 samples.append(_face_desc(faces[0]))
     eq_faces = _check_equator_mirror(run, np.random.default_rng(seed * 7919 + 55), tier, distinct)
     _check_meshes(run, tier, seed, distinct)
+    _check_small_faces(run, np.random.default_rng(seed * 31337 + 7), tier, distinct)
     _check_tables(run)
     bound = (f"{len(eq_faces)} convex faces symmetric about the equator (regular lon/lat cells, mirror-symmetric 4..8-gons; 1..65 deg across), each "
              f"listed from every start corner, Cartesian input (compute_face_areas(latlon=False), xyz-only source, get_all_face_area_from_coords "
              f"'cartesian') against the exact excess, lon/lat input, start corner, rotation, gaussian order 10; "f"{3 * reps} batches x {n_per} generated convex faces (3..8 corners, 2..65 deg across, edges < 90 deg; placed at random, around both "
              f"poles, with a pole as a corner, across the antimeridian, with a corner on +-180, on the prime meridian), each with start-corner "
              f"shift, renumbering, rigid rotation, Cartesian input, xyz-only source, fan subdivisions, all 15 rule/order pairs, cache sequences; "
-             f"the meshgen catalogue ({tier}) for per-face accuracy and 4*pi of closed meshes; all 15 quadrature tables; area functions run compiled")
+             f"the meshgen catalogue ({tier}) for per-face accuracy and 4*pi of closed meshes; all 15 quadrature tables; small faces (0.002..1 degree across at 7 places incl. both poles and the antimeridian: non-negative, relative 1e-5, Cartesian input, fan additivity); area functions run compiled")
     return result(run.cases, len(distinct), run.failures, bound, samples)
